@@ -101,6 +101,12 @@ def findPos {α : Type} (p : α → Bool) : List α → Nat
   | [] => 0
   | a :: rest => if p a then 0 else findPos p rest + 1
 
+/-- `np.minimum(x, ons[j])` where position `j` exists, `x` otherwise (`has_reonset`) -/
+def cutAt (ons : List Rat) (j : Nat) (x : Rat) : Rat :=
+  match ons[j]? with
+  | some t => min x t
+  | none => x
+
 /-- re-strike clipping of note `n` = `ns[i]` whose pedal-dictated end is `x` (the repaired loop):
     the notes of the same pitch sorted by onset; `j` = first position whose onset is `≥ n.off`,
     stepping over the note itself; if there is such a position the end is cut to that onset. -/
@@ -109,9 +115,7 @@ def restrikeClipIn (sorted : List (Note × Nat)) (i : Nat) (n : Note) (x : Rat) 
   let k := findPos (fun m => m.2 = i) sorted
   let j := searchsortedLeft ons n.off
   let j' := if j = k then j + 1 else j
-  match ons[j']? with
-  | some t => min x t
-  | none => x
+  cutAt ons j' x
 
 def samePitch (ns : List Note) (p : Int) : List (Note × Nat) :=
   ns.zipIdx.filter (fun m => m.1.pitch = p)
@@ -149,6 +153,38 @@ def soundOffs (ns : List Note) (cs : List Control) (thr : Int) : Option (List Ra
           match pedalEnd table m.1.off with
           | none => none
           | some e => checkSoundOff m.1 (restrikeClip ns m.2 m.1 e)) ns.zipIdx
+
+-- ------------------------------------------------------------------ vocabulary of the property statement
+
+/-- the pedal events in time order, simultaneous ones in stream order -/
+def pedalStream (cs : List Control) (thr : Int) : List Ev := sortBy (·.1) (pedalEvents cs thr)
+
+/-- the pedal state established by the events strictly before `r` of a time-ordered stream (up if none) -/
+def downBefore (r : Rat) (evs : List Ev) : Bool :=
+  match (evs.filter (fun e => decide (e.1 < r))).getLast? with
+  | some e => e.2
+  | none => false
+
+/-- the moments at or after `r` at which the pedal value is at or below the threshold -/
+def upTimes (r : Rat) (evs : List Ev) : List Rat :=
+  (evs.filter (fun e => decide (r ≤ e.1) && !e.2)).map (·.1)
+
+/-- onsets of the *other* notes of the same pitch at or after the release of note `n = ns[i]` -/
+def restrikes (ns : List Note) (i : Nat) (n : Note) : List Rat :=
+  (ns.zipIdx.filter (fun m => decide (m.2 ≠ i) && decide (m.1.pitch = n.pitch) && decide (n.off ≤ m.1.on))).map
+    (fun m => m.1.on)
+
+/-- the closing sentinel of the pedal table: one second after the last pedal event / the last release -/
+def closing (ns : List Note) (evs : List Ev) : Option Rat :=
+  match ns, evs.getLast? with
+  | n0 :: rest, some pl => some (max (pl.1 + 1) (maxOf n0.off (rest.map (·.off)) + 1))
+  | _, _ => none
+
+/-- `sound_off` of note `i` after `adjust_offsets_w_sustain` -/
+def soundOffAt (ns : List Note) (cs : List Control) (thr : Int) (i : Nat) : Option Rat :=
+  match soundOffs ns cs thr with
+  | some so => so[i]?
+  | none => none
 
 /-- a performed part: the notes, their current `sound_off`, the controls and the threshold -/
 structure Part where
